@@ -195,9 +195,12 @@ def c06_moma(E, w=(("EX_A",), ("DM_B",))):
         direction = "max"
         rules = {"R1": "g1", "DRAIN": "g2"}
     entity = E.pick("entity", ["reaction", "gene"])
-    refkind = E.pick("reference", ["pfba", "optimize"])
+    refkind = E.pick("reference", ["pfba", "optimize", "pfba-other-order"])
     try:
-        ref = pfba(m) if refkind == "pfba" else m.optimize()
+        if refkind == "pfba-other-order":
+            ref = pfba(m, reactions=list(reversed(m.reactions)))      # same fluxes, indexed in another order
+        else:
+            ref = pfba(m) if refkind == "pfba" else m.optimize()
     except OptimizationError:
         return
     if ref.status != "optimal":
